@@ -31,7 +31,9 @@ const (
 
 func c14Msg(i int) (*message.Message, string) {
 	key := vrt.PickStr("key"+strconv.Itoa(i), "a", "b")
-	if vrt.Bound("longkeys", 1) == 1 && vrt.Bool("key"+strconv.Itoa(i)+".long") {
+	if vrt.Bound("longkeys", 1) == 1 && vrt.Bool("key"+strconv.Itoa(i)+".empty") {
+		key = "" // a field that is present with an empty value is a key like any other
+	} else if vrt.Bound("longkeys", 1) == 1 && vrt.Bool("key"+strconv.Itoa(i)+".long") {
 		key = vrt.PickStr("key"+strconv.Itoa(i)+".l", c14LongA, c14LongB)
 	}
 	m := message.NewMessage("m"+strconv.Itoa(i), nil)
@@ -76,7 +78,7 @@ func c14Once(n int, viaPublisher bool) {
 	for i := 0; i < n; i++ {
 		<-done
 	}
-	for _, k := range []string{"a", "b", c14LongA, c14LongB} {
+	for _, k := range []string{"a", "b", "", c14LongA, c14LongB} {
 		present := 0
 		for i := 0; i < n; i++ {
 			if keys[i] == k {
